@@ -1,6 +1,6 @@
 SPECIFICATION Spec
 CONSTANTS
-  MaxRuns = 4
+  MaxRuns = 3
   MaxRun = 3
   MaxRows = 7
   MaxPages = 3
